@@ -1,4 +1,5 @@
 """Rule families shared by the property modules (CAST, PANIC, ALLOC, ...)."""
+import re
 from .core import callee_of, callee_names, is_call_to, fold, receiver_root, dominating_edges
 from .ranges import Ranges, canon, ty_range, INT, INF, LEN_MAX
 
@@ -78,9 +79,16 @@ def check_casts(ctx, B, rule, include_float=True, reviewed=None):
             continue      # widening: not an obligation
         n += 1
         c = canon(B, rv['op'])
+        rng = R.range_of(rv['op'], bb)
+        # `T::try_from(x)?` is x itself wherever it exists: described (and bounded) as x
+        if c[0] == 'payload' and isinstance(c[1], tuple) and c[1][0] == 'call' and re.search(r'TryFrom<\w+> for \w+>::try_from$|TryInto<\w+> for \w+>::try_into$', str(c[1][1])):
+            t_ = B.blocks[c[1][2]]['t']
+            if t_['k'] == 'call' and t_['args'] and ty_range(rv['from']):
+                c = canon(B, t_['args'][0])
+                r2 = R.range_of(t_['args'][0], bb)
+                rng = (max(rng[0], r2[0]), min(rng[1], r2[1]))
         inst = uniq_key(seen, '%s:%s(%s->%s)' % (B.path, describe(B, c), rv['from'], rv['to']))
         key = '%s:%s' % (rule, inst)
-        rng = R.range_of(rv['op'], bb)
         where = ctx.where(B, ln=st['ln'])
         # |x| of a NEGATIVE signed x: x.wrapping_neg() reinterpreted as the unsigned type of the same width is exact (MIN included)
         o_ = B.origin(rv['op'])
